@@ -158,7 +158,16 @@ func runC11(c *Ctx) {
 		return true
 	})
 	c.fam("exhaustive-unicode", "maxlen", max2)
-	alpha := []string{"*", "**", "***", "_", "__", "a", "b", " ", ".", ",", "é", " ", "“", "”", "(", ")", " ", "\xff", "ß"}
+	// every ASCII punctuation character that starts no inline construct, as the neighbour of a delimiter run
+	// (several are Unicode *symbols*, which the spec still counts as punctuation)
+	for _, p := range []string{"$", "+", "=", "^", "|", "~", "%", ",", ";", ":", "\"", "'", "(", ")", "{", "}", "@", "/", "?", "-", "#", "."} {
+		for _, d := range []string{"*", "_", "**", "__"} {
+			for _, t := range []string{"a" + p + d + "a" + d, d + "a" + d + p, "a" + d + p + d + "a", d + p + d + "a", "a" + p + d + "b" + d + p + "c", d + p + "a" + p + d, p + d + "a" + d + p, "a" + d + p + "b" + d, d + "a" + p + d + "b"} {
+				one("ascii-punctuation-neighbours", []byte(t))
+			}
+		}
+	}
+	alpha := []string{"*", "**", "***", "_", "__", "a", "b", " ", ".", ",", "é", " ", "“", "”", "(", ")", " ", "\xff", "ß", "$", "+", "~", "^", "|", "="}
 	for i := 0; i < c.N(40000, 1000000); i++ {
 		rng := newRng(c.Seed, "c11", i)
 		var sb strings.Builder
